@@ -50,6 +50,13 @@ CLAIMS = {
  "C19": dict(cat="other", design="DESIGN.md §3 C19",
    text="Loop-invariance rule (every rejecting branch in the per-clause loop must be data-dependent on the clause), validation-dominates-construction with verbatim storage for every FileCaps construction, operator/flag character switch tables and the capability-name constant (decoded from the compiled constant) against the oracle, error mapping, and a panic-site audit of the validator. Decides the structural clauses for all strings; exact language equality with the grammar is not decided.",
    technique="loop-invariant-guard dataflow + dominance + switch-table / constant-table extraction"),
+ "C01": dict(cat="other", design="DESIGN.md §3 C01",
+   text="Sibling agreement between every parser and its writer over MIR: decoder chains (static widths) and write_all operands are compared slot by slot with each other and with the rpm format oracle; every consumed slot is stored in the field the writer replays, or replaced by a constant after a guard over all its bytes, or is a permitted difference; write_index emits only raw index fields; type-code tables compose to the identity; the store is the untouched remainder; one padding function, tabulated over all 8 residues by abstract evaluation. These are the structural necessary conditions of the byte-for-byte round trip for every accepted input.",
+   technique="sibling wire-sequence extraction + provenance terms + arm tables + residue tabulation (abstract interpretation)"),
+ "C16": dict(cat="proof", design="DESIGN.md §3 C16",
+   text="Structural proof that the reported offsets equal the byte counts PackageMetadata::write emits before each segment: static widths of every write_all operand summed per writer and matched with the coefficients of the size()/offset linear forms extracted from MIR; every Header construction/mutation site keeps num_entries == index_entries.len() and data_section_size == store.len(); writer and offsets call the same padding function; composition order equals offset order. All obligations are discharged on every run or the check fails.",
+   technique="width summation + linear-form extraction + who-may-write size invariant + dominance",
+   note="Trusted: rustc nightly MIR; Write::write_all contract; Vec::len/push semantics; absence of u32 overflow for parsed headers (established by Header::parse's checked arithmetic, re-checked by C04's allow-list precondition)."),
 }
 
 NA = {
